@@ -231,7 +231,8 @@ async fn hostile_producer_variants(h: &mut History, blk: &saito_core::core::cons
     let gp = h.cfg.params.gp;
     let creator = h.b.actors[0].clone();
     let thief = h.b.actors[2].clone();
-    for variant in 0..6u8 {
+    for variant in 0..7u8 {
+        let mut rebuild = false;
         let mut b = match Block::deserialize_from_net(&block_bytes(blk)) {
             Ok(b) => b,
             Err(_) => return,
@@ -281,6 +282,24 @@ async fn hostile_producer_variants(h: &mut History, blk: &saito_core::core::cons
                 b.treasury -= 1 + b.treasury / 2;
                 "treasury-lowered"
             }
+            6 => {
+                // one payout / rebroadcast output (slip types other than Normal) spent by two
+                // different signed transactions of the same block; the header is rebuilt around
+                // them, so the only thing wrong with the block is the second spend
+                let ledger = h.b.store.ledger(parent);
+                let o = ledger.utxo.values().find(|o| matches!(o.slip_type, 1 | 5 | 7) && o.amount > 10 && o.block_id + gp > b.id + 1 && h.b.actors.iter().any(|a| a.pk == o.owner)).cloned();
+                let o = match o {
+                    Some(o) => o,
+                    None => continue,
+                };
+                let owner = h.b.actors.iter().find(|a| a.pk == o.owner).unwrap().clone();
+                let t1 = build_tx(&owner, &[o.clone()], &[(owner.pk, o.amount)], b.timestamp.saturating_sub(3), b"first");
+                let t2 = build_tx(&owner, &[o.clone()], &[(thief.pk, o.amount)], b.timestamp.saturating_sub(2), b"second");
+                b.transactions.insert(0, t2);
+                b.transactions.insert(0, t1);
+                rebuild = true;
+                "payout-output-spent-twice-in-one-block"
+            }
             _ => match b.transactions.iter_mut().find(|t| t.transaction_type == TransactionType::Normal && t.to.iter().any(|s| s.amount > 0)) {
                 Some(t) => {
                     let i = t.to.iter().position(|s| s.amount > 0).unwrap();
@@ -290,7 +309,13 @@ async fn hostile_producer_variants(h: &mut History, blk: &saito_core::core::cons
                 None => continue,
             },
         };
-        crate::props::c04::reseal(&mut b, &creator, true);
+        if rebuild {
+            let pnode = h.b.producer_at(parent).await;
+            crate::props::c01::rebuild_header(&pnode, &mut b).await;
+            h.b.keep_producer(*parent, pnode);
+        } else {
+            crate::props::c04::reseal(&mut b, &creator, true);
+        }
         let bytes = block_bytes(&b);
         let key = h.b.actors[3].clone();
         let mut sut = h.b.fresh_replica(parent, &key).await;
